@@ -1,3 +1,3 @@
 SPECIFICATION Spec
-INVARIANTS Emit BaseValid MutInvalid
+INVARIANTS Emit BaseValid MutInvalid Benign
 CHECK_DEADLOCK FALSE
